@@ -239,7 +239,8 @@ func genFrame(t *rapid.T, f *Format, c Cfg, idx int, salt uint16) Frame {
 		sizes := sizesFor(t, n, max, f.Overheads, 1, hi)
 		fr := Frame{}
 		for i, s := range sizes {
-			fr.Units = append(fr.Units, Unit{N: s, Fill: fillFor(idx, i, salt)})
+			// first byte fixed: an AU starting with an ADTS sync word (FF Fx) is outside the domain
+			fr.Units = append(fr.Units, Unit{Head: []byte{0x21}, N: s - 1, Fill: fillFor(idx, i, salt)})
 		}
 		return fr
 	case "fragmented":
